@@ -204,6 +204,20 @@ func main() {
 		if c.Trusted {
 			continue
 		}
+		if ps.Mode == "both" {
+			eng.both = true
+			eng.passConc = false
+			cfg.Mode = "seq"
+			if err := eng.VerifyFunction(fn, c); err != nil {
+				fnErrors = append(fnErrors, err.Error())
+			}
+			eng.passConc = true
+			cfg.Mode = "conc"
+			if err := eng.VerifyFunction(fn, c); err != nil {
+				fnErrors = append(fnErrors, "conc pass: "+err.Error())
+			}
+			continue
+		}
 		if err := eng.VerifyFunction(fn, c); err != nil {
 			fnErrors = append(fnErrors, err.Error())
 		}
